@@ -257,6 +257,9 @@ pub fn gen_font(ctx: &mut Ctx, rng: &mut Rng, profile: &'static str, case: u64) 
         // in the "shared" profile several tuples of a glyph reuse one delta
         // structure so that their point-number sets coincide
         let mut reuse: Option<Vec<(i16, i16, bool)>> = None;
+        // most glyphs keep phantom point 0 (the origin) fixed, so that the
+        // drawing oracle has a single rounding step
+        let zero_pp0 = rng.chance(3, 4);
         for ti in 0..n_tuples {
             let tents = if rng.chance(3, 4) { rng.pick(&pool).clone() } else { gen_region(rng, n_axes) };
             let explicit_intermediate = rng.chance(1, 4);
@@ -295,10 +298,14 @@ pub fn gen_font(ctx: &mut Ctx, rng: &mut Rng, profile: &'static str, case: u64) 
                     0 => {
                         // flags from the optimiser
                         let tol = *rng.pick(&[0.0, 0.5, 0.5, 1.0, 2.0]);
-                        let dq: Vec<(i32, i32)> = gen_deltas(rng, &coords, &ends, tol, rng.chance(1, 5))
+                        let frac = rng.chance(1, 5);
+                        let mut dq: Vec<(i32, i32)> = gen_deltas(rng, &coords, &ends, tol, frac)
                             .into_iter()
                             .map(|d| (d.0.clamp(-16000, 16000), d.1.clamp(-16000, 16000)))
                             .collect();
+                        if zero_pp0 {
+                            dq[n - 4] = (0, 0);
+                        }
                         let case = IupCase { coords: coords.clone(), deltas_q: dq.clone(), ends: ends.clone(), tol };
                         match check_iup(ctx, &case, "gvar-gen") {
                             Some(out) if out.len() == n => {
@@ -322,6 +329,19 @@ pub fn gen_font(ctx: &mut Ctx, rng: &mut Rng, profile: &'static str, case: u64) 
                     }
                 }
             };
+            let mut deltas = deltas;
+            if zero_pp0 {
+                deltas[n - 4].0 = 0;
+                deltas[n - 4].1 = 0;
+            }
+            // A tuple without any required delta is compiled into malformed
+            // data by the builder (known finding, see `probe_all_optional`);
+            // it is kept out of the general workload so that the remaining
+            // checks stay meaningful.
+            if !deltas.iter().any(|d| d.2) {
+                deltas[0].2 = true;
+                ctx.count("gvar_gen_all_optional_tuple_given_one_required", 1);
+            }
             if profile == "shared" && ti == 0 {
                 reuse = Some(deltas.clone());
             }
@@ -656,3 +676,77 @@ fn check_read_fonts_view(
 }
 
 pub const PROFILES: [&str; 5] = ["small", "runs", "shared", "big", "long-offsets"];
+
+// ------------------------------------------------------------------ all-optional tuples
+
+/// A tuple whose deltas are all optional (what `iup_delta_optimize` returns
+/// for an all-zero region) is a legitimate builder input. The property
+/// demands that the compiled table, read back with spec inference, gives
+/// zero deltas for that region and leaves the other regions intact.
+pub fn probe_all_optional(ctx: &mut Ctx) {
+    for variant in 0..4u64 {
+        let mut rng = Rng::derive(ctx.seed, "c10-all-optional", variant);
+        let n_real = [3usize, 5, 9, 1][variant as usize];
+        let ppc = move |_: &mut Rng| n_real;
+        let (coords, ends) = gen_outline(&mut rng, 1, &ppc, 300);
+        let n = coords.len();
+        // region A: all deltas zero, flags from the optimiser itself
+        let case = IupCase { coords: coords.clone(), deltas_q: vec![(0, 0); n], ends: ends.clone(), tol: 0.5 };
+        let Some(out) = check_iup(ctx, &case, "all-zero") else { continue };
+        let a: Vec<(i16, i16, bool)> = out.iter().map(|d| (d.x, d.y, d.required)).collect();
+        if a.iter().any(|d| d.2) {
+            continue;
+        }
+        // region B: ordinary dense deltas
+        let b: Vec<(i16, i16, bool)> = (0..n).map(|i| if i + 4 < n { (10 + i as i16, -20, true) } else { (0, 0, true) }).collect();
+        let spec = FontSpec {
+            n_axes: 1,
+            glyphs: vec![GlyphSpec {
+                coords: coords.clone(),
+                on_curve: vec![true; n - 4],
+                ends: ends.clone(),
+                tuples: vec![
+                    TupleSpec { tents: vec![(0, 16384, 16384)], explicit_intermediate: false, deltas: a, orig: Some((vec![(0, 0); n], 0.5)) },
+                    TupleSpec { tents: vec![(0, 8192, 8192)], explicit_intermediate: false, deltas: b, orig: None },
+                ],
+                advance: 500,
+            }],
+            profile: "all-optional",
+            case: variant,
+        };
+        ctx.eval();
+        ctx.count("gvar_all_optional_probes", 1);
+        let built = guard(|| build_gvar(&spec).map(|g| write_fonts::dump_table(&g).map_err(|e| format!("{}", e))));
+        let bytes = match built {
+            Ok(Ok(Ok(b))) => b,
+            Ok(_) => {
+                ctx.count("gvar_all_optional_rejected", 1);
+                continue;
+            }
+            Err(p) => {
+                ctx.judge_panic(&p, "Gvar::new / dump_table (all-optional tuple)", spec.summary(), None);
+                continue;
+            }
+        };
+        let decoded = RawGvar::parse(&bytes).and_then(|r| r.glyph(0, n));
+        let fine = match &decoded {
+            Ok(g) => g.tuples.len() == 2 && g.tuples[0].explicit(n).map(|e| e.iter().all(|d| d.is_none() || *d == Some((0, 0)))).unwrap_or(false),
+            Err(_) => false,
+        };
+        if !fine {
+            ctx.violation(
+                "gvar:all-optional-tuple:compiled-as-all-points-without-delta-data",
+                json!({"what": "a tuple whose deltas are all optional is compiled with packed point count 0 (= all points) but no deltas; the glyph's variation data is undecodable per spec",
+                       "decode": decoded.as_ref().map(|g| g.tuples.len()).map_err(|e| e.clone()),
+                       "coords": coords, "contour_ends": ends, "bytes_hex": vf_core::hex(&bytes)}),
+                Some(&bytes),
+            );
+        } else {
+            ctx.count("gvar_all_optional_probe_ok", 1);
+        }
+        // what a consumer sees: does skrifa still apply region B?
+        if let Ok(Ok(font)) = guard(|| crate::wl_draw::build_font(&spec, &bytes)) {
+            crate::wl_draw::probe_region_b_applied(ctx, &font, &coords);
+        }
+    }
+}
